@@ -21,7 +21,7 @@ func up64(v uint64) *uint64 { return &v }
 
 // pesShape builds the default-valued model header for a structural shape.
 // digits: indicator(3) escr rate trick copy crc ext(1+16)
-var pesShapeRadix = mc.Radix{3, 2, 2, 2, 2, 2, 17}
+var pesShapeRadix = mc.Radix{4, 2, 2, 2, 2, 2, 17}
 
 func pesShape(i int64, sid uint8) *ref.PESHdr {
 	d := pesShapeRadix.Digits(i, nil)
@@ -31,6 +31,8 @@ func pesShape(i int64, sid uint8) *ref.PESHdr {
 		h.PTS = up64(0x123456789 & (1<<33 - 1))
 	case 2:
 		h.PTS, h.DTS = up64(0x1fedcba98), up64(0x0aaaaaaaa)
+	case 3:
+		h.Ind01 = true // PTS_DTS_flags '01': one of the 2^8 flag combinations (decode side only)
 	}
 	if d[1] == 1 {
 		h.ESCR = &ref.PCR{Base: 0x155555555, Ext: 0x0aa}
@@ -217,7 +219,7 @@ func c12Decode(c *mc.Ctx, h *ref.PESHdr, what string, public bool) {
 
 // c12Encode: model -> library writer -> compare with reference bytes.
 func c12Encode(c *mc.Ctx, h *ref.PESHdr, what string, public bool) {
-	if h.CRC != nil || (h.Ext != nil && h.Ext.HasPack) || h.Stuffing != 0 {
+	if h.CRC != nil || (h.Ext != nil && h.Ext.HasPack) || h.Stuffing != 0 || h.Ind01 {
 		return // not writable by the library (documented TODOs) - outside the encode domain
 	}
 	for _, plen := range []int{0, 1, 200, 65535, 65536} {
@@ -278,7 +280,7 @@ func minInt(a, b int) int {
 
 func checkC12(c *mc.Ctx) {
 	c.Ev.Level = "exploration"
-	c.Ev.Rule = "bounded-exhaustive codec input space: all 256 stream ids; all 1632 structural optional-header shapes; every field over its boundary alphabet alone (all 256 trick bytes, all 128 copy-info values, all 2^16 CRC values, 33-bit values: 0, every single bit, all ones, alternating); header stuffing 0..32; PES_packet_length classes; timestamps: stratified 2^25 (quick) or all 2^33 (thorough) values through parse and write; Duration() against exact rational arithmetic; distinct_nontrivial = distinct model headers / values"
+	c.Ev.Rule = "bounded-exhaustive codec input space: all 256 stream ids; all 2176 structural optional-header shapes; every field over its boundary alphabet alone (all 256 trick bytes, all 128 copy-info values, all 2^16 CRC values, 33-bit values: 0, every single bit, all ones, alternating); header stuffing 0..32; PES_packet_length classes; timestamps: stratified 2^25 (quick) or all 2^33 (thorough) values through parse and write; Duration() against exact rational arithmetic; distinct_nontrivial = distinct model headers / values"
 	c.Ev.Assumptions = append(c.Ev.Assumptions, "pack_header_field_flag=1 is outside the decode domain; CRC, pack header and header stuffing are outside the encode domain (not writable, documented TODO)",
 		"PES_packet_length 0 accepted on the encode side for stream ids 0xE0-0xEF and 0xFD and whenever the length exceeds 65535",
 		"Duration(): both readings of 'truncated' accepted (sum of truncated terms, or truncated sum)")
